@@ -846,3 +846,23 @@ for _g in CHECKS["C06"]["groups"][:1]:
     for _tier in ("quick", "thorough"):
         _g[_tier] = list(_g[_tier]) + [{"id": "resolved-6", "entry": "HarnessC06Resolved", "sparams": {"base": "./{1}", "rel": "../{3}"}, "_w": 4},
                                        {"id": "resolved-7", "entry": "HarnessC06Resolved", "sparams": {"base": "./", "rel": "./{3}"}, "_w": 3}]
+
+# ---- second calibration of the thorough tier (intermediate bounds that do complete)
+def _replace_thorough(pid, group_index, items, bounds_text):
+    _g = CHECKS[pid]["groups"][group_index]
+    _ids = {it["id"] for it in items}
+    _g["thorough"] = list(items) + [it for it in _g["quick"] if it["id"] not in _ids]
+    CHECKS[pid]["bounds"] = dict(CHECKS[pid]["bounds"], thorough=bounds_text + "; plus every quick-tier item, with three times as many sampled paths replayed natively")
+
+
+# (C11: intermediate bounds tried on 2026-10-03 - remote base 4 x 6 bytes, triples 3+4+4 - did not complete within 13 minutes; not registered)
+
+# ---- round-4 extensions
+# C05: dereferencing through chains of links outside the tree (second hop relative to a directory at another depth)
+CHECKS["C05"]["groups"][0]["quick"] = list(CHECKS["C05"]["groups"][0]["quick"]) + [
+    {"id": "pack-N1-deref-menu", "entry": "HarnessPack", "params": {"N": 1, "opts": 1, "linkMenu": 1}, "shards": 2, "_w": 20},
+    {"id": "pack-N2-deref-menu", "entry": "HarnessPack", "params": {"N": 2, "opts": 1, "linkMenu": 1}, "shards": 8, "_w": 40}]
+CHECKS["C05"]["groups"][0]["thorough"] = list(CHECKS["C05"]["groups"][0]["thorough"]) + [
+    {"id": "pack-N1-deref-menu", "entry": "HarnessPack", "params": {"N": 1, "opts": 1, "linkMenu": 1}, "shards": 2, "_w": 20},
+    {"id": "pack-N2-deref-menu", "entry": "HarnessPack", "params": {"N": 2, "opts": 1, "linkMenu": 1}, "shards": 8, "_w": 40}]
+CHECKS["C05"]["bounds"]["quick"] += "; dereferencing: N=1,2 with link targets from a menu of 8 that leave the tree through further links (relative and absolute, to a file, to a directory, at another depth): each such link is shipped as a copy of what it physically points to (file content; files of a directory)"
